@@ -490,3 +490,423 @@ Proof.
   - intros k Hk. apply export_cols_var. rewrite Hall. assumption.
   - assumption.
 Qed.
+
+Definition cell_has_dtype (d : ndt) (c : cell) : bool :=
+  match d, c with
+  | NFloat, CFlt _ => true
+  | NInt, CInt z => in_int64 z
+  | NBool, CBool _ => true
+  | NStr, CStr _ => true
+  | _, _ => false
+  end.
+
+Lemma np_cast_same d c : cell_has_dtype d c = true -> np_cast d c = TOk c.
+Proof.
+  destruct d, c; cbn [cell_has_dtype np_cast]; intros H; try discriminate; try reflexivity.
+  rewrite H. reflexivity.
+Qed.
+
+(* ------------------------------------------------------------------ symbols_to_dataframe / dataframe_to_symbols *)
+Lemma pd_infer_cases l : l <> [] ->
+  (forallb is_none l = true -> pd_infer l = Some (PObject, l)) /\
+  (forallb is_none l = false -> forallb is_int l = true -> exists d, pd_infer l = Some (d, l)) /\
+  (forallb is_none l = false -> forallb is_int l = false -> forallb is_bool l = false -> forallb is_str l = true ->
+     pd_infer l = Some (PStrDt, l)) /\
+  (forallb is_none l = false -> forallb is_int l = false -> forallb is_bool l = false -> forallb is_str l = false ->
+     forallb is_str_or_none l = true -> pd_infer l = Some (PStrDt, map none_to_nan l)) /\
+  (forallb is_none l = false -> forallb is_int l = false -> forallb is_bool l = false -> forallb is_str l = false ->
+     forallb is_str_or_none l = false -> forallb is_num_or_none l = true -> pd_infer l = Some (PFloat64, map to_float_cell l)).
+Proof.
+  intros Hne. destruct l as [|c0 r]; [contradiction|]. unfold pd_infer. set (l := c0 :: r).
+  repeat split.
+  - intros ->. reflexivity.
+  - intros -> ->. destruct (forallb cell_int64 l); [|destruct (forallb cell_uint64 l)]; eexists; reflexivity.
+  - intros -> -> -> ->. reflexivity.
+  - intros -> -> -> -> ->. reflexivity.
+  - intros -> -> -> -> -> ->. reflexivity.
+Qed.
+
+Lemma type_of_value_value t : type_of_value (type_value t) = Some t.
+Proof. destruct t; vm_compute; reflexivity. Qed.
+
+Lemma rne53_small z : Z.abs z <=? two53 = true -> rne53 z = z.
+Proof. intros H. unfold rne53. rewrite H. reflexivity. Qed.
+
+(* -- optional text columns: name, equation, code -- *)
+Lemma conv_ostr os : map convert_to_str_or_none (map cell_of_ostr os) = os.
+Proof. induction os as [|[s|] r IH]; cbn [map cell_of_ostr convert_to_str_or_none]; rewrite ?IH; reflexivity. Qed.
+
+Lemma conv_ostr_nan os : map convert_to_str_or_none (map none_to_nan (map cell_of_ostr os)) = os.
+Proof. induction os as [|[s|] r IH]; cbn [map cell_of_ostr none_to_nan convert_to_str_or_none]; rewrite ?IH; reflexivity. Qed.
+
+Lemma ostr_all_str_or_none os : forallb is_str_or_none (map cell_of_ostr os) = true.
+Proof. induction os as [|[s|] r IH]; cbn [map forallb cell_of_ostr is_str_or_none andb]; auto. Qed.
+
+Lemma ostr_column name o r :
+  exists d cs, mk_column name (map cell_of_ostr (o :: r)) = Some (mkCol name d cs)
+               /\ map convert_to_str_or_none cs = o :: r.
+Proof.
+  unfold mk_column. set (l := map cell_of_ostr (o :: r)).
+  assert (Hne : l <> []) by (subst l; discriminate).
+  destruct (pd_infer_cases l Hne) as [C1 [_ [C3 [C4 _]]]].
+  assert (Ei : forallb is_int l = false) by (subst l; destruct o; reflexivity).
+  assert (Eb : forallb is_bool l = false) by (subst l; destruct o; reflexivity).
+  destruct (forallb is_none l) eqn:E1.
+  - rewrite (C1 eq_refl). eexists; eexists; split; [reflexivity|]. subst l. apply conv_ostr.
+  - destruct (forallb is_str l) eqn:E2.
+    + rewrite (C3 eq_refl Ei Eb eq_refl). eexists; eexists; split; [reflexivity|]. subst l. apply conv_ostr.
+    + rewrite (C4 eq_refl Ei Eb eq_refl (ostr_all_str_or_none _)). eexists; eexists; split; [reflexivity|].
+      subst l. apply conv_ostr_nan.
+Qed.
+
+(* -- the type column -- *)
+Lemma type_column t r :
+  exists d, mk_column "type" (map (fun s => CInt (type_value (stype s))) (t :: r))
+            = Some (mkCol "type" d (map (fun s => CInt (type_value (stype s))) (t :: r))).
+Proof.
+  unfold mk_column. set (l := map (fun s => CInt (type_value (stype s))) (t :: r)).
+  assert (Hne : l <> []) by (subst l; discriminate).
+  destruct (pd_infer_cases l Hne) as [_ [C2 _]].
+  assert (En : forallb is_none l = false) by (subst l; reflexivity).
+  assert (Ei : forallb is_int l = true).
+  { subst l. clear. generalize (t :: r). intros ss. induction ss as [|a ss IH]; [reflexivity|]. cbn [map forallb is_int andb]. assumption. }
+  destruct (C2 En Ei) as [d ->]. exists d. reflexivity.
+Qed.
+
+Lemma conv_type ss : map type_of_cell (map (fun s => CInt (type_value (stype s))) ss) = map (fun s => TOk (stype s)) ss.
+Proof.
+  induction ss as [|s r IH]; [reflexivity|]. cbn [map type_of_cell]. rewrite type_of_value_value, IH. reflexivity.
+Qed.
+
+(* -- lags / leads -- *)
+Definition idx_ok (o : option pidx) : bool :=
+  match o with None => true | Some (IInt z) => in_int64 z | Some (IStr _) => false end.
+Definition idx_exact (o : option pidx) : bool :=
+  match o with Some (IInt z) => Z.abs z <=? two53 | _ => true end.
+Definition idx_col_ok (os : list (option pidx)) : bool :=
+  forallb idx_ok os && (negb (existsb is_None os) || forallb idx_exact os).
+(* the guard the round trip needs: every lag / lead is None or an int64, and a column that holds a None holds only
+   integers that float64 represents exactly *)
+Definition sym_wf (ss : list symbol) : bool := idx_col_ok (map slags ss) && idx_col_ok (map sleads ss).
+
+Definition enc_idx (o : option pidx) : cell := match o with Some (IInt z) => CInt z | _ => CNone end.
+
+Lemma idx_cells_enc os : forallb idx_ok os = true -> idx_cells os = Some (map enc_idx os).
+Proof.
+  unfold idx_cells. generalize (existsb is_None os). intros b. induction os as [|o r IH]; [reflexivity|].
+  cbn [forallb map all_some]. intros H. apply andb_true_iff in H as [H1 H2].
+  destruct o as [[z|s]|]; cbn [idx_ok] in H1; try discriminate; cbn [cell_of_oidx enc_idx].
+  - rewrite H1. cbn [negb]. rewrite andb_false_r. rewrite (IH H2). reflexivity.
+  - rewrite (IH H2). reflexivity.
+Qed.
+
+Lemma conv_enc os : forallb idx_ok os = true -> map convert_to_int_or_none (map enc_idx os) = map TOk os.
+Proof.
+  induction os as [|o r IH]; [reflexivity|]. cbn [forallb map]. intros H. apply andb_true_iff in H as [H1 H2].
+  rewrite (IH H2). destruct o as [[z|s]|]; cbn [idx_ok] in H1; try discriminate; cbn [enc_idx convert_to_int_or_none].
+  - rewrite H1. reflexivity.
+  - reflexivity.
+Qed.
+
+Lemma conv_enc_float os : forallb idx_ok os = true -> forallb idx_exact os = true ->
+  map convert_to_int_or_none (map to_float_cell (map enc_idx os)) = map TOk os.
+Proof.
+  induction os as [|o r IH]; [reflexivity|]. cbn [forallb map]. intros H H'.
+  apply andb_true_iff in H as [H1 H2]. apply andb_true_iff in H' as [H3 H4].
+  rewrite (IH H2 H4). destruct o as [[z|s]|]; cbn [idx_ok] in H1; try discriminate;
+    cbn [enc_idx to_float_cell convert_to_int_or_none f64_of_Z Z_of_f64].
+  - cbn [idx_exact] in H3. rewrite (rne53_small z H3). reflexivity.
+  - reflexivity.
+Qed.
+
+Lemma enc_no_none_all_int os : forallb idx_ok os = true -> existsb is_None os = false -> forallb is_int (map enc_idx os) = true.
+Proof.
+  induction os as [|o r IH]; [reflexivity|]. cbn [forallb existsb map]. intros H H'.
+  apply andb_true_iff in H as [H1 H2]. apply orb_false_iff in H' as [H3 H4].
+  rewrite (IH H2 H4). destruct o as [[z|s]|]; cbn [idx_ok is_None] in *; try discriminate. reflexivity.
+Qed.
+
+Lemma enc_str_or_none os : forallb is_str_or_none (map enc_idx os) = true -> forallb is_none (map enc_idx os) = true.
+Proof.
+  induction os as [|o r IH]; [reflexivity|]. cbn [forallb map]. intros H. apply andb_true_iff in H as [H1 H2].
+  rewrite (IH H2). destruct o as [[z|s]|]; cbn [enc_idx is_str_or_none] in H1; try discriminate; reflexivity.
+Qed.
+
+Lemma enc_num_or_none os : forallb idx_ok os = true -> forallb is_num_or_none (map enc_idx os) = true.
+Proof.
+  induction os as [|o r IH]; [reflexivity|]. cbn [forallb map]. intros H. apply andb_true_iff in H as [H1 H2].
+  rewrite (IH H2). destruct o as [[z|s]|]; cbn [idx_ok] in H1; try discriminate; cbn [enc_idx is_num_or_none]; rewrite ?H1; reflexivity.
+Qed.
+
+Lemma idx_column name o r : idx_col_ok (o :: r) = true ->
+  exists cs0 d cs, idx_cells (o :: r) = Some cs0 /\ mk_column name cs0 = Some (mkCol name d cs)
+                   /\ map convert_to_int_or_none cs = map TOk (o :: r).
+Proof.
+  unfold idx_col_ok. intros H. apply andb_true_iff in H as [Hok Hex].
+  exists (map enc_idx (o :: r)). rewrite (idx_cells_enc _ Hok).
+  unfold mk_column. set (l := map enc_idx (o :: r)).
+  assert (Hne : l <> []) by (subst l; discriminate).
+  destruct (pd_infer_cases l Hne) as [C1 [C2 [_ [_ C5]]]].
+  destruct (forallb is_none l) eqn:E1.
+  { rewrite (C1 eq_refl). eexists; eexists; split; [reflexivity|split; [reflexivity|]]. subst l. apply conv_enc; assumption. }
+  destruct (forallb is_int l) eqn:E2.
+  { destruct (C2 eq_refl eq_refl) as [d ->]. eexists; eexists; split; [reflexivity|split; [reflexivity|]]. subst l. apply conv_enc; assumption. }
+  assert (Eb : forallb is_bool l = false) by (subst l; destruct o as [[z|s]|]; reflexivity).
+  assert (Es : forallb is_str l = false) by (subst l; destruct o as [[z|s]|]; reflexivity).
+  assert (Eo : forallb is_str_or_none l = false).
+  { destruct (forallb is_str_or_none l) eqn:E; [|reflexivity]. subst l. rewrite (enc_str_or_none _ E) in E1. discriminate. }
+  assert (En : forallb is_num_or_none l = true) by (subst l; apply enc_num_or_none; assumption).
+  rewrite (C5 eq_refl eq_refl Eb Es Eo En). eexists; eexists; split; [reflexivity|split; [reflexivity|]].
+  subst l. apply conv_enc_float; [assumption|].
+  destruct (existsb is_None (o :: r)) eqn:EN.
+  - cbn [negb orb] in Hex. assumption.
+  - rewrite (enc_no_none_all_int _ Hok EN) in E2. discriminate.
+Qed.
+
+(* -- rows -- *)
+Lemma rows_ok ss : forall nm ty lg ld eq cd,
+  map convert_to_str_or_none nm = map sname ss ->
+  map type_of_cell ty = map (fun s => TOk (stype s)) ss ->
+  map convert_to_int_or_none lg = map (fun s => TOk (slags s)) ss ->
+  map convert_to_int_or_none ld = map (fun s => TOk (sleads s)) ss ->
+  map convert_to_str_or_none eq = map sequation ss ->
+  map convert_to_str_or_none cd = map scode ss ->
+  rows_to_symbols nm ty lg ld eq cd = TOk ss.
+Proof.
+  induction ss as [|s r IH]; intros nm ty lg ld eq cd H1 H2 H3 H4 H5 H6.
+  - apply map_eq_nil in H1, H2, H3, H4, H5, H6. subst. reflexivity.
+  - destruct nm as [|a nm]; [discriminate|]. destruct ty as [|b ty]; [discriminate|].
+    destruct lg as [|c lg]; [discriminate|]. destruct ld as [|d ld]; [discriminate|].
+    destruct eq as [|e eq]; [discriminate|]. destruct cd as [|f cd]; [discriminate|].
+    cbn [map] in *. injection H1 as A1 A2. injection H2 as B1 B2. injection H3 as C1 C2.
+    injection H4 as D1 D2. injection H5 as E1 E2. injection H6 as F1 F2.
+    cbn [rows_to_symbols]. unfold symbol_of_row. rewrite B1, C1, D1. cbn [tbind].
+    rewrite (IH nm ty lg ld eq cd A2 B2 C2 D2 E2 F2). cbn [tbind].
+    rewrite A1, E1, F1. destruct s; reflexivity.
+Qed.
+
+Lemma symbols_roundtrip_ok ss : sym_wf ss = true -> symbols_roundtrip ss = TOk ss.
+Proof.
+  intros W. unfold symbols_roundtrip, symbols_to_table. destruct ss as [|s r]; [reflexivity|].
+  set (ss := s :: r) in *. unfold sym_wf in W. apply andb_true_iff in W as [Wl Wd].
+  destruct (idx_column "lags" (slags s) (map slags r) Wl) as [lg0 [d3 [lg [L1 [L2 L3]]]]].
+  destruct (idx_column "leads" (sleads s) (map sleads r) Wd) as [ld0 [d4 [ld [D1 [D2 D3]]]]].
+  destruct (ostr_column "name" (sname s) (map sname r)) as [d1 [nm [N1 N2]]].
+  destruct (ostr_column "equation" (sequation s) (map sequation r)) as [d5 [eq [Q1 Q2]]].
+  destruct (ostr_column "code" (scode s) (map scode r)) as [d6 [cd [K1 K2]]].
+  destruct (type_column s r) as [d2 T1].
+  change (map slags ss) with (slags s :: map slags r). change (map sleads ss) with (sleads s :: map sleads r).
+  rewrite L1, D1.
+  rewrite <- (map_map sname cell_of_ostr ss), <- (map_map sequation cell_of_ostr ss), <- (map_map scode cell_of_ostr ss).
+  change (map sname ss) with (sname s :: map sname r). change (map sequation ss) with (sequation s :: map sequation r).
+  change (map scode ss) with (scode s :: map scode r).
+  rewrite N1, Q1, K1, L2, D2. unfold ss at 1. rewrite T1. cbn [tbind].
+  unfold table_to_symbols. cbn [tindex ilabels tcols length seq map].
+  cbn [find_col pcname String.eqb Ascii.eqb Bool.eqb existsb mem_s symbol_fields negb orb col_values pccells].
+  apply rows_ok.
+  - assumption.
+  - exact (conv_type (s :: r)).
+  - rewrite L3. unfold ss. cbn [map]. rewrite map_map. reflexivity.
+  - rewrite D3. unfold ss. cbn [map]. rewrite map_map. reflexivity.
+  - assumption.
+  - assumption.
+Qed.
+
+(* ------------------------------------------------------------------ the statements of Props/C19.v *)
+Lemma filter_all_id {A} (f : A -> bool) l : (forall x, In x l -> f x = true) -> filter f l = l.
+Proof.
+  induction l as [|a r IH]; intros H; [reflexivity|]. cbn [filter]. rewrite (H a (or_introl eq_refl)).
+  f_equal. apply IH. intros x Hx. apply H. right; assumption.
+Qed.
+
+Lemma export_columns_in_model_order st it ii m ix :
+  wf_model m (length (splabels (fspan m))) -> pd_index (fspan m) = Some ix ->
+  exists t, model_to_table st it ii m = TOk t /\ tindex t = ix /\
+    map pcname (tcols t)
+    = (if ii then fnames m else filter (fun x => negb (starts_underscore x)) (fnames m))
+      ++ (if st then ["status"] else []) ++ (if it then ["iterations"] else []).
+Proof.
+  intros W H. eexists. split; [apply model_to_table_spec; eassumption|]. split; [reflexivity|].
+  cbn [tcols]. rewrite export_cols_names. unfold export_names. reflexivity.
+Qed.
+
+Lemma export_cells_and_dtypes st it ii m ix k s :
+  wf_model m (length (splabels (fspan m))) -> pd_index (fspan m) = Some ix ->
+  In k (fnames m) -> (ii = true \/ starts_underscore k = false) ->
+  assoc_s k (fvars m) = Some s -> sdt s <> NObj ->
+  exists t, model_to_table st it ii m = TOk t /\
+            find_col k (tcols t) = Some (mkCol k (pdt_of_ndt (sdt s)) (scells s)).
+Proof.
+  intros W H Hk Hii Hs Hd. eexists. split; [apply model_to_table_spec; eassumption|]. cbn [tcols].
+  assert (Hx : In k (export_names ii m)).
+  { unfold export_names. destruct ii; [assumption|]. apply filter_In. split; [assumption|].
+    destruct Hii as [Hii|Hii]; [discriminate|]. rewrite Hii. reflexivity. }
+  rewrite (export_cols_var st it ii m k Hx).
+  destruct (wf_getvar _ _ _ W Hk) as [s' [Hg [-> _]]].
+  rewrite getvar_name in Hg.
+  - rewrite Hs in Hg. inversion Hg; subst. rewrite col_of_typed by assumption. reflexivity.
+  - intros ->. apply (wf_nostatus _ _ W Hk).
+  - intros ->. apply (wf_noiter _ _ W Hk).
+Qed.
+
+Lemma find_col_none k l : ~ In k (map pcname l) -> find_col k l = None.
+Proof.
+  induction l as [|a r IH]; intros H; [reflexivity|]. cbn [find_col].
+  destruct (String.eqb k (pcname a)) eqn:E.
+  - apply String.eqb_eq in E. exfalso. apply H. left. symmetry; assumption.
+  - apply IH. intros H'. apply H. right; assumption.
+Qed.
+
+Lemma export_status_iterations st it ii m ix :
+  wf_model m (length (splabels (fspan m))) -> pd_index (fspan m) = Some ix ->
+  exists t, model_to_table st it ii m = TOk t /\
+    find_col "status" (tcols t) = (if st then Some (col_of ("status", fstatus m)) else None) /\
+    find_col "iterations" (tcols t) = (if it then Some (col_of ("iterations", fiters m)) else None).
+Proof.
+  intros W H. eexists. split; [apply model_to_table_spec; eassumption|]. cbn [tcols].
+  pose proof (wf_nostatus _ _ W) as N1. pose proof (wf_noiter _ _ W) as N2.
+  assert (X1 : ~ In "status" (export_names ii m)) by (intros H'; apply export_names_In in H'; contradiction).
+  assert (X2 : ~ In "iterations" (export_names ii m)) by (intros H'; apply export_names_In in H'; contradiction).
+  split.
+  - destruct st; [apply export_cols_status; assumption|].
+    apply find_col_none. rewrite export_cols_names. cbn [app]. intros H'.
+    apply in_app_or in H' as [H'|H']; [contradiction|]. destruct it; [destruct H' as [H'|[]]; discriminate|destruct H'].
+  - destruct it; [apply export_cols_iterations; assumption|].
+    apply find_col_none. rewrite export_cols_names. rewrite app_nil_r. intros H'.
+    apply in_app_or in H' as [H'|H']; [contradiction|]. destruct st; [destruct H' as [H'|[]]; discriminate|destruct H'].
+Qed.
+
+Lemma export_one_row_per_period st it ii m ix :
+  wf_model m (length (splabels (fspan m))) -> pd_index (fspan m) = Some ix ->
+  exists t, model_to_table st it ii m = TOk t /\
+    length (ilabels (tindex t)) = length (splabels (fspan m)) /\
+    forall c, In c (tcols t) -> length (pccells c) = length (splabels (fspan m)).
+Proof.
+  intros W H. eexists. split; [apply model_to_table_spec; eassumption|]. cbn [tindex tcols]. split.
+  - apply pd_index_length. assumption.
+  - apply export_cols_rows. assumption.
+Qed.
+
+Lemma export_underscore_only_when_requested st it ii m ix :
+  wf_model m (length (splabels (fspan m))) -> pd_index (fspan m) = Some ix ->
+  exists t, model_to_table st it ii m = TOk t /\
+    (forall k, In k (fnames m) -> (In k (map pcname (tcols t)) <-> (ii = true \/ starts_underscore k = false))).
+Proof.
+  intros W H. eexists. split; [apply model_to_table_spec; eassumption|]. cbn [tcols].
+  intros k Hk. rewrite export_cols_names. split.
+  - intros H'. apply in_app_or in H' as [H'|H'].
+    + unfold export_names in H'. destruct ii; [left; reflexivity|]. apply filter_In in H' as [_ H'].
+      right. apply negb_true_iff. assumption.
+    + exfalso. apply in_app_or in H' as [H'|H'].
+      * destruct st; [|destruct H']. destruct H' as [<-|[]]. apply (wf_nostatus _ _ W Hk).
+      * destruct it; [|destruct H']. destruct H' as [<-|[]]. apply (wf_noiter _ _ W Hk).
+  - intros H'. apply in_or_app. left. unfold export_names. destruct ii; [assumption|].
+    apply filter_In. split; [assumption|]. destruct H' as [H'|H']; [discriminate|]. rewrite H'. reflexivity.
+Qed.
+
+Lemma export_index_is_span st it ii m ix :
+  wf_model m (length (splabels (fspan m))) -> pd_index (fspan m) = Some ix -> span_stable (fspan m) = true ->
+  exists t, model_to_table st it ii m = TOk t /\ ilabels (tindex t) = splabels (fspan m).
+Proof.
+  intros W H S. eexists. split; [apply model_to_table_spec; eassumption|]. cbn [tindex].
+  apply pd_index_stable; assumption.
+Qed.
+
+Lemma linker_tables st it ii l (ix : fmodel -> pindex) :
+  NoDup (map fst (lsubs l)) -> ~ In (lname l) (map fst (lsubs l)) ->
+  (forall m, m = lmodel l \/ In m (map snd (lsubs l)) ->
+             wf_model m (length (splabels (fspan m))) /\ pd_index (fspan m) = Some (ix m)) ->
+  linker_to_tables st it ii l
+  = TOk ((lname l, mkTable (ix (lmodel l)) (export_cols st it ii (lmodel l)))
+         :: map (fun km => (fst km, mkTable (ix (snd km)) (export_cols st it ii (snd km)))) (lsubs l)).
+Proof.
+  intros Hnd Hn Hall.
+  apply (linker_to_tables_spec st it ii (fun m => mkTable (ix m) (export_cols st it ii m))); try assumption.
+  - destruct (Hall (lmodel l) (or_introl eq_refl)) as [W H]. apply model_to_table_spec; assumption.
+  - intros k m Hkm. destruct (Hall m) as [W H].
+    + right. apply in_map_iff. exists (k, m). split; [reflexivity|assumption].
+    + apply model_to_table_spec; assumption.
+Qed.
+
+Lemma from_to_roundtrip_same_dtype st it ii m ix c :
+  wf_model m (length (splabels (fspan m))) -> pd_index (fspan m) = Some ix -> span_stable (fspan m) = true ->
+  cnames c = fnames m ->
+  (ii = true \/ forall k, In k (fnames m) -> starts_underscore k = false) ->
+  (cstrict c = true -> st = false /\ it = false) ->
+  (forall k, In k (fnames m) -> mem_s k init_params = false) ->
+  (forall k s, In k (fnames m) -> assoc_s k (fvars m) = Some s ->
+     sdt s = cdtype c /\ sdt s <> NObj /\ forallb (cell_has_dtype (cdtype c)) (scells s) = true) ->
+  exists t m', model_to_table st it ii m = TOk t /\ from_table c t = TOk m' /\
+    splabels (fspan m') = splabels (fspan m) /\ fnames m' = fnames m /\
+    (forall k, In k (fnames m) -> assoc_s k (fvars m') = assoc_s k (fvars m)) /\
+    fstatus m' = mkSeries NStr (repeat (CStr "-") (length (splabels (fspan m)))) /\
+    fiters m' = mkSeries NInt (repeat (CInt (-1)) (length (splabels (fspan m)))).
+Proof.
+  intros W H S Hc Hii Hstrict Hparams Htyped.
+  assert (Hall : export_names ii m = fnames m).
+  { unfold export_names. destruct Hii as [->|Hii]; [reflexivity|]. destruct ii; [reflexivity|].
+    apply filter_all_id. intros x Hx. rewrite (Hii x Hx). reflexivity. }
+  assert (Hser : forall k, In k (fnames m) -> exists s, assoc_s k (fvars m) = Some s /\ the_series m k = s).
+  { intros k Hk. destruct (wf_getvar _ _ _ W Hk) as [s [Hg [Hs _]]]. exists s. split; [|assumption].
+    rewrite getvar_name in Hg; [assumption| |]; intros ->; [apply (wf_nostatus _ _ W Hk)|apply (wf_noiter _ _ W Hk)]. }
+  eexists. eexists. split; [apply model_to_table_spec; eassumption|]. split.
+  - apply from_to_roundtrip; try assumption.
+    intros k Hk. destruct (Hser k Hk) as [s [Hs ->]]. destruct (Htyped k s Hk Hs) as [_ [T C]]. split; [assumption|].
+    apply Forall_forall. intros x Hx. apply np_cast_same. rewrite forallb_forall in C. apply C. assumption.
+  - unfold fresh_model. cbn [fspan fnames fvars fstatus fiters].
+    pose proof (pd_index_length _ _ H) as Hn. pose proof (pd_index_stable _ _ H S) as Hl.
+    split.
+    { unfold span_of_index. destruct (is_time_index (ikd ix)); cbn [splabels]; assumption. }
+    split; [reflexivity|]. split.
+    { intros k Hk. destruct (Hser k Hk) as [s [Hs Hts]]. rewrite Hs.
+      assert (G : forall names, In k names -> (forall k', In k' names -> In k' (fnames m)) ->
+                  assoc_s k (map (fun k0 => (k0, mkSeries (cdtype c) (scells (the_series m k0)))) names)
+                  = Some (mkSeries (cdtype c) (scells (the_series m k)))).
+      { induction names as [|a r IH]; intros Hin Hsub; [destruct Hin|]. cbn [map assoc_s].
+        destruct (String.eqb k a) eqn:E.
+        - apply String.eqb_eq in E. subst. reflexivity.
+        - destruct Hin as [->|Hin]; [rewrite String.eqb_refl in E; discriminate|].
+          apply IH; [assumption|]. intros k' Hk'. apply Hsub. right; assumption. }
+      rewrite (G (fnames m) Hk (fun k' h => h)). rewrite Hts.
+      destruct (Htyped k s Hk Hs) as [<- _]. destruct s; reflexivity. }
+    rewrite Hn. split; reflexivity.
+Qed.
+
+Lemma from_to_roundtrip_object st it ii m ix c :
+  wf_model m (length (splabels (fspan m))) -> pd_index (fspan m) = Some ix -> span_stable (fspan m) = true ->
+  cnames c = fnames m -> cdtype c = NObj ->
+  (ii = true \/ forall k, In k (fnames m) -> starts_underscore k = false) ->
+  (cstrict c = true -> st = false /\ it = false) ->
+  (forall k, In k (fnames m) -> mem_s k init_params = false) ->
+  (forall k s, In k (fnames m) -> assoc_s k (fvars m) = Some s -> sdt s <> NObj) ->
+  exists t m', model_to_table st it ii m = TOk t /\ from_table c t = TOk m' /\
+    splabels (fspan m') = splabels (fspan m) /\ fnames m' = fnames m /\
+    (forall k s, In k (fnames m) -> assoc_s k (fvars m) = Some s ->
+                 assoc_s k (fvars m') = Some (mkSeries NObj (scells s))).
+Proof.
+  intros W H S Hc Hd Hii Hstrict Hparams Htyped.
+  assert (Hall : export_names ii m = fnames m).
+  { unfold export_names. destruct Hii as [->|Hii]; [reflexivity|]. destruct ii; [reflexivity|].
+    apply filter_all_id. intros x Hx. rewrite (Hii x Hx). reflexivity. }
+  assert (Hser : forall k, In k (fnames m) -> exists s, assoc_s k (fvars m) = Some s /\ the_series m k = s).
+  { intros k Hk. destruct (wf_getvar _ _ _ W Hk) as [s [Hg [Hs _]]]. exists s. split; [|assumption].
+    rewrite getvar_name in Hg; [assumption| |]; intros ->; [apply (wf_nostatus _ _ W Hk)|apply (wf_noiter _ _ W Hk)]. }
+  eexists. eexists. split; [apply model_to_table_spec; eassumption|]. split.
+  - apply from_to_roundtrip; try assumption.
+    intros k Hk. destruct (Hser k Hk) as [s [Hs ->]]. split; [apply (Htyped k s Hk Hs)|].
+    apply Forall_forall. intros x _. rewrite Hd. reflexivity.
+  - unfold fresh_model. cbn [fspan fnames fvars].
+    pose proof (pd_index_stable _ _ H S) as Hl.
+    split.
+    { unfold span_of_index. destruct (is_time_index (ikd ix)); cbn [splabels]; assumption. }
+    split; [reflexivity|].
+    intros k s Hk Hs. destruct (Hser k Hk) as [s' [Hs' Hts]]. rewrite Hs in Hs'. injection Hs' as Ess. rewrite <- Ess in Hts.
+    assert (G : forall names, In k names ->
+                assoc_s k (map (fun k0 => (k0, mkSeries (cdtype c) (scells (the_series m k0)))) names)
+                = Some (mkSeries (cdtype c) (scells (the_series m k)))).
+    { induction names as [|a r IH]; intros Hin; [destruct Hin|]. cbn [map assoc_s].
+      destruct (String.eqb k a) eqn:E.
+      - apply String.eqb_eq in E. subst. reflexivity.
+      - destruct Hin as [->|Hin]; [rewrite String.eqb_refl in E; discriminate|]. apply IH; assumption. }
+    rewrite (G (fnames m) Hk), Hts, Hd. reflexivity.
+Qed.
